@@ -1004,7 +1004,10 @@ class Steward():
         data['version'] = "HTTP/{0}.{1}".format(*self.requestant.version)
         data['method'] = self.requestant.method
 
-        pathSplits = urlsplit(unquote(self.requestant.url))
+        try:
+            pathSplits = urlsplit(unquote(self.requestant.url))
+        except ValueError:  # unquoted form is not splittable, e.g. '%5B' gives unbalanced IPv6 bracket
+            pathSplits = urlsplit(self.requestant.url)  # as received, already split by requestant
         path = pathSplits.path
         data['path'] = path
 
